@@ -72,6 +72,7 @@ func runC15(p *Prog, r *Report) {
 	c.closure()
 	c.conformanceVisitsAll()
 	c.singletonDecisions()
+	visitedScopeRule(p, r, "R15.6-visited-scope", 2, pValidate)
 }
 
 func (c *c15ctx) anchors() bool {
